@@ -399,6 +399,9 @@ func runCheck(id, tier string, o RunOpts) int {
 		totals["sat"] += r.QSat
 		totals["unknown"] += r.QUnknown
 		totals["steps"] += r.Steps
+		totals["by-norm"] += r.Counters["assertions-decided-by-normalisation"]
+		totals["by-solver"] += r.Counters["assertions-decided-by-solver"]
+		totals["forks"] += r.Counters["merged-regions"]
 		solverS += r.SolverS
 		for l, n := range r.Asserted {
 			assertLabels[r.Name+"/"+l] += n
@@ -569,6 +572,9 @@ func runCheck(id, tier string, o RunOpts) int {
 		"stubs_used":           spec.stubs,
 		"queries":              map[string]int{"total": totals["queries"], "unsat": totals["unsat"], "sat": totals["sat"], "unknown": totals["unknown"]},
 		"assertions_discharged": assertLabels,
+		"assertion_instances_decided_by_term_normalisation": totals["by-norm"],
+		"assertion_instances_decided_by_solver_query":      totals["by-solver"],
+		"merged_regions_executed":                          totals["forks"],
 		"instructions_executed": totals["steps"],
 		"solver_s":             solverS,
 		"solvers":              o.solver,
